@@ -277,7 +277,12 @@ MENUS = {
 BRANCH_MENUS = {
     "q": dict(lin=(2, 3, 5, 10), iso=SP_Q, win=(1, 2, 3, 5, 7)),
     "t": dict(lin=(2, 3, 4, 5, 10, 33), iso=SP_T, win=(1, 2, 3, 4, 5, 7, 9)),
+    # length sweeps: one spacing, isometric resampler only
+    "sw:1.0": dict(lin=(), iso=(1.0,), win=()),
+    "sw:0.4": dict(lin=(), iso=(0.4,), win=()),
+    "sw:2.5": dict(lin=(), iso=(2.5,), win=()),
 }
+SWEEP_FINE = (1e-4, 3e-4, 1e-3, 2e-3, 4e-3, 8e-3)  # |length / spacing - k| for the ladder around every whole number of steps
 
 
 def check_tree(case, R):
@@ -669,6 +674,20 @@ def spaces(tier, seed):
                     for kind in ("xyzr32", "xyzr64", "tree"):
                         yield (lens, bank, kind, tg)
 
+    def gen_length_sweep():
+        """Branch length / spacing = every multiple of 1/256 in [1/8, r_hi] and a fine ladder on both sides of every whole number:
+        the node count changes at whole ratios, and 'round-off guards' bite just beside them."""
+        r_hi = 4 if q else 9
+        ratios = [j / 256 for j in range(32, 256 * r_hi + 1)]
+        for k in range(1, r_hi + 1):
+            for e in SWEEP_FINE:
+                ratios += [k + e, k - e]
+        for d in (1.0, 0.4, 2.5):
+            for r in ratios:
+                L = r * d
+                for split in ((1.0,), (0.3, 0.7)) if d == 1.0 or r == int(r) or abs(r - round(r)) < 0.01 else ((1.0,),):
+                    yield (tuple(L * f for f in split), "generic", "xyzr32" if len(split) == 1 else "tree", f"sw:{d}")
+
     tpool = history_tree_pool(4 if q else 5)
     tpool3 = history_tree_pool(3)
     bpool = history_branch_pool(3 if q else 4)
@@ -703,6 +722,9 @@ def spaces(tier, seed):
                  bounds={"instances": list(TREE_INSTANCES), "pool": len(tpool), "pool_rule": "every sorted tree up to "
                          f"{4 if q else 5} nodes x {{mixed lengths on the generic bank, zero-first lengths on the lattice bank}}",
                          "sequences": "every ordered pair (A, B): A, B, A again, A edited in place" + ("" if q else f"; every ordered triple of the {len(tpool3)} trees up to 3 nodes")}),
+        Space.of("branch-length-sweep", gen_length_sweep, check_branch,
+                 bounds={"spacings": [1.0, 0.4, 2.5], "length_over_spacing": f"every multiple of 1/256 in [1/8, {4 if q else 9}] and k +- {list(SWEEP_FINE)} for every whole k",
+                         "polylines": "one segment; two segments (0.3 / 0.7 of the length) for spacing 1.0 and beside whole ratios", "adjust_last_gap": [True, False]}),
         Space.of("branch-transforms", gen_branches, check_branch,
                  bounds={"polyline_points": [2, pl_hi], "segment_lengths": list(LENGTHS), "direction_banks": list(banks),
                          "sources": ["from_xyzr float32", "from_xyzr float64", "attached tree branch"],
